@@ -159,6 +159,10 @@ rf_wavheader_format_t rf_wavheader_get_format(rf_wavheader_t *wh)
 void rf_wavheader_init(rf_wavheader_t *wh, int sfreq, int num_channels,
 		rf_wavheader_format_t format)
 {
+	// fields that are not part of the chosen format (extension, fact
+	// chunk) must not keep whatever the caller's memory held before
+	memset(wh, 0, sizeof(*wh));
+
 	memcpy(wh->chunk_id, riff, 4);
 	// bytes following the size field: form type, fmt, fact (float only), data
 	wh->chunk_size = (format == RF_WAVHEADER_FLOAT ? 4 + (8 + 18) + 12 + 8 :
@@ -194,9 +198,10 @@ void rf_wavheader_set_num_frames(rf_wavheader_t *wh, unsigned int num_frames)
 	wh->chunk_size -= wh->data_chunk_size;
 
 	wh->data_chunk_size = num_frames * wh->block_align;
-	// doesn't matter if there is no fact chunk, we'll not emit this if this
-	// chunk is absent
-	wh->sample_length = num_frames * wh->num_channels;
+	// only meaningful if there is a fact chunk; without one it is not
+	// emitted and so must stay as a decoder would report it
+	if (0 == memcmp(fact, wh->fact_chunk_id, 4))
+		wh->sample_length = num_frames * wh->num_channels;
 	wh->chunk_size += num_frames * wh->block_align;
 }
 
